@@ -29,6 +29,73 @@ type rep struct {
 	inner  *rep // ptr
 	n      int
 	fnames []string // struct field names
+	fidx   []int    // struct kinds: the struct field holding CQL field / entry i (nil: field i)
+}
+
+func (r *rep) fieldIndex(i int) int {
+	if r.fidx != nil {
+		return r.fidx[i]
+	}
+	return i
+}
+
+func capitalise(s string) string { return strings.ToUpper(s[:1]) + s[1:] }
+
+// structLayout declares the struct type that stands for the CQL names (UDT field names / keys of a map<text,...>) with the given field types.
+//
+//	mode 0  every field either untagged with the capitalised CQL name, or named F<i> with a `cassandra` tag
+//	mode 1  every field tagged, and the Go NAME of each field is the (capitalised) CQL name of ANOTHER field: the tag must win over the name,
+//	        wherever the fields are declared
+//	mode 2  fields declared in reverse order; extra: after an additional untagged field that stands for no CQL name; dup adds, last, a second
+//	        field carrying the tag of CQL name 0 (shadowed by the first one: never read, never written). A struct used as a CQL MAP has
+//	        one entry per field, so neither applies there.
+//
+// Returns the type and, per CQL name, the index of the struct field that stands for it (documented rule: a tagged field matches by its tag
+// only, an untagged one by its name, case-insensitively).
+func (g *gen) structLayout(names []string, fts []reflect.Type, mode int, extra, dup bool) (reflect.Type, []int, []string) {
+	n := len(names)
+	var sf []reflect.StructField
+	fidx := make([]int, n)
+	tagOf := func(name string) reflect.StructTag { return reflect.StructTag(`cassandra:"` + name + `"`) }
+	switch mode {
+	case 1:
+		for i := 0; i < n; i++ {
+			fidx[i] = i
+			sf = append(sf, reflect.StructField{Name: capitalise(names[(i+1)%n]), Type: fts[i], Tag: tagOf(names[i])})
+		}
+	case 2:
+		if extra {
+			sf = append(sf, reflect.StructField{Name: "Zz_9", Type: reflect.TypeOf(int32(0))})
+		}
+		for i := n - 1; i >= 0; i-- {
+			fidx[i] = len(sf)
+			f := reflect.StructField{Type: fts[i], Name: fmt.Sprintf("Fld_%d", i), Tag: tagOf(names[i])}
+			if g.pick(2) == 0 {
+				f = reflect.StructField{Type: fts[i], Name: capitalise(names[i])}
+			}
+			sf = append(sf, f)
+		}
+		if dup && n > 0 {
+			sf = append(sf, reflect.StructField{Name: "Dup_0", Type: fts[0], Tag: tagOf(names[0])})
+			if sf[fidx[0]].Tag == "" { // the first one must carry the tag too, otherwise the later tagged field is the one that matches
+				sf[fidx[0]] = reflect.StructField{Type: fts[0], Name: "Fld_0", Tag: tagOf(names[0])}
+			}
+		}
+	default:
+		for i := 0; i < n; i++ {
+			fidx[i] = i
+			f := reflect.StructField{Type: fts[i], Name: fmt.Sprintf("Fld_%d", i), Tag: tagOf(names[i])}
+			if g.pick(2) == 0 {
+				f = reflect.StructField{Type: fts[i], Name: capitalise(names[i])}
+			}
+			sf = append(sf, f)
+		}
+	}
+	fn := make([]string, len(sf))
+	for i, f := range sf {
+		fn[i] = f.Name
+	}
+	return reflect.StructOf(sf), fidx, fn
 }
 
 func (r *rep) nillable() bool {
@@ -53,6 +120,8 @@ func (r *rep) String() string {
 		return "[]interface{}{" + r.elem.String() + "}"
 	case r.kind == "map":
 		return "map[" + r.key.String() + "]" + r.val.String()
+	case r.kind == "structmap" || r.kind == "udtstruct" || r.kind == "tupstruct":
+		return r.kind + " " + r.gt.String() // field names, types and tags
 	default:
 		fs := make([]string, len(r.fields))
 		for i, f := range r.fields {
@@ -296,6 +365,23 @@ func nonNull(vals []*aval) []*aval {
 	return r
 }
 
+// holdsIface: a comparable type whose values may still be unhashable (an interface inside an array / struct can hold a slice)
+func holdsIface(t reflect.Type) bool {
+	switch t.Kind() {
+	case reflect.Interface:
+		return true
+	case reflect.Array:
+		return holdsIface(t.Elem())
+	case reflect.Struct:
+		for i := 0; i < t.NumField(); i++ {
+			if holdsIface(t.Field(i).Type) {
+				return true
+			}
+		}
+	}
+	return false
+}
+
 func ptrTo(r *rep) *rep { return &rep{t: r.t, kind: "ptr", gt: reflect.PtrTo(r.gt), inner: r} }
 
 // plan chooses a representation able to hold every value of vals (all of CQL type t).
@@ -370,21 +456,14 @@ func (g *gen) plan(t *ctype, vals []*aval, needComparable bool, preferred bool) 
 			}
 			if okKeys {
 				r = &rep{t: t, kind: "structmap"}
-				var sf []reflect.StructField
+				names := make([]string, len(ks))
+				fts := make([]reflect.Type, len(ks))
 				for i, k := range ks {
 					fr := g.plan(t.val, []*aval{vs[i]}, false, false)
 					r.fields = append(r.fields, fr)
-					f := reflect.StructField{Type: fr.gt}
-					if g.pick(2) == 0 {
-						f.Name = strings.ToUpper(string(k.bs[:1])) + string(k.bs[1:])
-					} else {
-						f.Name = fmt.Sprintf("F%d", i)
-						f.Tag = reflect.StructTag(`cassandra:"` + string(k.bs) + `"`)
-					}
-					r.fnames = append(r.fnames, f.Name)
-					sf = append(sf, f)
+					names[i], fts[i] = string(k.bs), fr.gt
 				}
-				r.gt = reflect.StructOf(sf)
+				r.gt, r.fidx, r.fnames = g.structLayout(names, fts, g.pick(3), false, false)
 				break
 			}
 		}
@@ -407,22 +486,17 @@ func (g *gen) plan(t *ctype, vals []*aval, needComparable bool, preferred bool) 
 		switch {
 		case choice == 1: // struct
 			r = &rep{t: t, kind: pre + "struct"}
-			var sf []reflect.StructField
+			fts := make([]reflect.Type, n)
 			for i := 0; i < n; i++ {
 				fr := g.plan(t.fields[i], cols[i], false, false)
 				r.fields = append(r.fields, fr)
-				f := reflect.StructField{Type: fr.gt, Name: fmt.Sprintf("F%d", i)}
-				if t.kind == "udt" {
-					if g.pick(2) == 0 {
-						f.Name = strings.ToUpper(t.names[i][:1]) + t.names[i][1:]
-					} else {
-						f.Tag = reflect.StructTag(`cassandra:"` + t.names[i] + `"`)
-					}
-				}
-				r.fnames = append(r.fnames, f.Name)
-				sf = append(sf, f)
+				fts[i] = fr.gt
 			}
-			r.gt = reflect.StructOf(sf)
+			if t.kind == "udt" {
+				r.gt, r.fidx, r.fnames = g.structLayout(t.names, fts, g.pick(3), true, g.pick(2) == 0)
+			} else {
+				r.gt = structOf(fts, nil) // tuples: fields by position
+			}
 		case choice == 2 && t.kind == "tuple": // [n]interface{}
 			r = &rep{t: t, kind: "tuparray", n: n, gt: reflect.ArrayOf(n, tIface)}
 			for i := 0; i < n; i++ {
@@ -444,7 +518,7 @@ func (g *gen) plan(t *ctype, vals []*aval, needComparable bool, preferred bool) 
 			}
 		}
 	}
-	if !isBigPtr(r.gt) && ((hasNull && !r.nillable()) || (needComparable && !r.gt.Comparable()) || (!preferred && g.pick(5) == 0)) {
+	if !isBigPtr(r.gt) && ((hasNull && !r.nillable()) || (needComparable && (!r.gt.Comparable() || holdsIface(r.gt))) || (!preferred && g.pick(5) == 0)) {
 		r = ptrTo(r)
 	}
 	return r
@@ -493,13 +567,13 @@ func (r *rep) mk(a *aval) reflect.Value {
 	case r.kind == "structmap":
 		s := reflect.New(r.gt).Elem()
 		for i, p := range a.pairs {
-			s.Field(i).Set(r.fields[i].mk(p[1]))
+			s.Field(r.fieldIndex(i)).Set(r.fields[i].mk(p[1]))
 		}
 		return s
 	case r.kind == "tupstruct" || r.kind == "udtstruct":
 		s := reflect.New(r.gt).Elem()
 		for i, e := range a.elems {
-			s.Field(i).Set(r.fields[i].mk(e))
+			s.Field(r.fieldIndex(i)).Set(r.fields[i].mk(e))
 		}
 		return s
 	case r.kind == "tupslice" || r.kind == "udtslice":
@@ -527,6 +601,23 @@ func (r *rep) mk(a *aval) reflect.Value {
 }
 
 // ---------------------------------------------------------------------------------------------- abstraction
+
+// docField: the struct field that stands for the CQL name, by the DOCUMENTED rule (doc.go, reflection.go): "if the struct field has a
+// cassandra tag, then the tag must match the name exactly; otherwise the name must match the struct field name, case insensitively".
+// A tagged field is never found under its Go name; a tag match is exact and wins wherever it is declared. -1: no such field.
+func docField(st reflect.Type, name string) int {
+	for j := 0; j < st.NumField(); j++ {
+		if tag := st.Field(j).Tag.Get("cassandra"); tag != "" && tag == name {
+			return j
+		}
+	}
+	for j := 0; j < st.NumField(); j++ {
+		if st.Field(j).Tag.Get("cassandra") == "" && strings.EqualFold(st.Field(j).Name, name) {
+			return j
+		}
+	}
+	return -1
+}
 
 func bigOfKind(v reflect.Value) (*big.Int, bool) {
 	switch v.Kind() {
@@ -769,12 +860,8 @@ func abs(t *ctype, v reflect.Value) (res *aval) {
 		case reflect.Struct:
 			for i, n := range t.names {
 				var fv reflect.Value
-				for j := 0; j < v.NumField(); j++ {
-					f := v.Type().Field(j)
-					if f.Tag.Get("cassandra") == n || (f.Tag.Get("cassandra") == "" && strings.EqualFold(f.Name, n)) {
-						fv = v.Field(j)
-						break
-					}
+				if j := docField(v.Type(), n); j >= 0 {
+					fv = v.Field(j)
 				}
 				r.elems = append(r.elems, abs(t.fields[i], fv))
 			}
